@@ -990,24 +990,30 @@ package mq
 //@ func (*UserProperties).properties
 //@   ensures result == upwidth(*p, len(*p))                                                 #C10 #C02
 //@   loop 0:
+//@     invariant rangeindex + 1 <= len(*p)
 //@     invariant i - n == upwidth(*p, rangeindex + 1)                                       #C10 #C02
 
 //@ func (*Publish).properties
 //@   loop 0:
+//@     invariant rangeindex + 1 <= len(p.subscriptionIDs)
 //@     invariant i - entry_i == sidwidth(p.subscriptionIDs, rangeindex + 1)                 #C10 #C02
 
 //@ func (*Subscribe).payload
 //@   loop 0:
+//@     invariant rangeindex + 1 <= len(p.filters)
 //@     invariant i - n == tfwidth(p.filters, rangeindex + 1)                                #C10 #C02
 
 //@ func (*Unsubscribe).payload
 //@   loop 0:
+//@     invariant rangeindex + 1 <= len(p.filters)
 //@     invariant i - n == wswidth(p.filters, rangeindex + 1)                                #C10 #C02
 
 //@ func (*SubAck).payload
 //@   loop 0:
+//@     invariant rangeindex + 1 <= len(p.reasonCodes)
 //@     invariant i - n == rangeindex + 1                                                    #C10 #C02
 
 //@ func (*UnsubAck).payload
 //@   loop 0:
+//@     invariant rangeindex + 1 <= len(p.reasonCodes)
 //@     invariant i - n == rangeindex + 1                                                    #C10 #C02
